@@ -225,6 +225,12 @@ class ProgramModel:
         """name -> FunctionDef of a method of cn (along its MRO), for the helper-inlining views of astutil"""
         return (lambda name: self.find_method(cn, name)[1]) if cn in self.classes else (lambda name: None)
 
+    def function_finder(self, rel):
+        """name -> module-level FunctionDef of the module with path `rel` (for the helper views of astutil)"""
+        tree = next((t for m, (r, t, _) in self.modules.items() if r == rel), None)
+        fs = {f.name: f for f in tree.body if isinstance(f, ast.FunctionDef)} if tree is not None else {}
+        return lambda name: fs.get(name)
+
     def own_methods(self, cn):
         return [n for n in self.classes[cn].node.body if isinstance(n, ast.FunctionDef)]
 
@@ -298,15 +304,21 @@ class ProgramModel:
         env = {}
 
         def ev(e):
-            if isinstance(e, ast.List):
+            if isinstance(e, (ast.List, ast.Tuple)):
                 out = []
                 for x in e.elts:
+                    if isinstance(x, ast.Starred):
+                        out += ev(x.value)
+                        continue
                     if not isinstance(x, ast.Name):
                         raise AnalysisError(f"{rel}: non-name element {ast.unparse(x)}")
                     out.append(x.id)
                 return out
             if isinstance(e, ast.Name) and e.id in env:
                 return env[e.id]
+            if isinstance(e, ast.Call) and isinstance(e.func, ast.Name) and e.func.id in ("list", "tuple") \
+                    and len(e.args) == 1 and not e.keywords:
+                return ev(e.args[0])
             if isinstance(e, ast.BinOp) and isinstance(e.op, ast.Add):
                 return ev(e.left) + ev(e.right)
             raise AnalysisError(f"{rel}: cannot evaluate {ast.unparse(e)[:80]}")
